@@ -189,6 +189,20 @@ mod __verif_kani {
     //@ kind=B props=C04 bound=start=58,valid_bits=62 fn=find_close_in_word_fast : start and end inside the last byte
     word_fast_case!(c04_find_close_in_word_fast_58_62, 58usize, 62usize);
 
+    //@ kind=B props=C04 bound=1_word,len=21 fn=BalancedParens::{new,find_close,find_open,enclose} : every 21-bit parenthesis string (one symbolic word, bits past len arbitrary) and every p: find_close / find_open / enclose == the naive excess scan; exercises the FromL0/ScanWord/CheckL* state machine on its smallest instance
+    #[kani::proof]
+    #[kani::unwind(24)]
+    pub fn c04_bp_one_word_find() {
+        let w: [u64; 1] = kani::any();
+        let len = 21usize;
+        let bp = BalancedParens::new(vec![w[0]], len);
+        let p: usize = kani::any();
+        kani::assume(p <= len + 1);
+        assert!(bp.find_close(p) == naive_find_close(&w, len, p));
+        assert!(bp.find_open(p) == naive_find_open(&w, len, p));
+        assert!(bp.enclose(p) == naive_enclose(&w, len, p));
+    }
+
     //@ kind=B props=C04 tier=thorough bound=2_words,len=100 fn=BalancedParens::{new,find_close,find_open,enclose,rank1,rank0,excess,select0,first_child,next_sibling,subtree_size,depth} : 2 symbolic words (balanced or not), len = 100, symbolic position: every navigation answer equals the left-to-right / right-to-left excess-scan definition over the first len bits; stray bits past len are ignored
     #[kani::proof]
     #[kani::unwind(104)]
